@@ -113,7 +113,10 @@ impl FileName {
 
         let mod_name = if is_mod { components.next() } else { None };
 
-        if has_src {
+        // `<module>/src/..` only exists for modules. for a local file the first component
+        // isn't a module name and must not be dropped (`a/src/x.capy` and `b/src/x.capy` would
+        // otherwise get the same components)
+        if has_src && is_mod {
             components.next();
         }
 
